@@ -28,11 +28,11 @@ D = {
             "names are single valid path elements (the statement defines Path only for those)",
             PBT + ": reference-model oracle + differential (walk rows vs text output), exhaustive stop positions + rapid"),
     "C06": ("exploration",
-            "Set algebra on before/after snapshots of a jail: created == node paths exactly, nothing else removed or changed, kind rule (childless + suffix => empty regular file), pre-existing root => ErrExistPath and no diff, OS refusals (256-byte name, target is a file, parent is a file) => error and no stray entries. Exhaustive over forests <=4/6 nodes over {a,b,ab} x 7 extension lists (incl. prefix-related and repeated extensions); random with extension lists cut from the generated names, and earlier operations (incl. a real Mkdir elsewhere) on the same From-Root tree. Part fs-fault: the target is a tmpfs with room for exactly k entries, for EVERY k from 0 to the number of node paths (ENOSPC at the k+1-th creation must be an error; what exists is a subset of the node paths of the right kind). Also 9..40 roots with hidden names, targets named ~t, odd target modes (0700, 1777, 2775), a root name held by a dangling symbolic link. A root name held by a symbolic link to itself; option values built under another working directory; over-long FILE nodes with unclean target spellings.",
+            "Set algebra on before/after snapshots of a jail: created == node paths exactly, nothing else removed or changed, kind rule (childless + suffix => empty regular file), pre-existing root => ErrExistPath and no diff, OS refusals (256-byte name, target is a file, parent is a file) => error and no stray entries. Exhaustive over forests <=4/6 nodes over {a,b,ab} x 7 extension lists (incl. prefix-related and repeated extensions); random with extension lists cut from the generated names, and earlier operations (incl. a real Mkdir elsewhere) on the same From-Root tree. Part fs-fault: the target is a tmpfs with room for exactly k entries, for EVERY k from 0 to the number of node paths (ENOSPC at the k+1-th creation must be an error; what exists is a subset of the node paths of the right kind). Also 9..40 roots with hidden names, targets named ~t, odd target modes (0700, 1777, 2775), a root name held by a dangling symbolic link. A root name held by a symbolic link to itself; option values built under another working directory; over-long FILE nodes with unclean target spellings. The target may be spelled through a symbolic link followed by '..' (lnk/../target with a decoy where the kernel resolves it); the option list comes in a drawn order.",
             "tmpfs jail per case; OS refusals limited to what root can provoke on tmpfs (ENAMETOOLONG, ENOTDIR, ENOSPC through a mounted tmpfs when the process may mount; no EACCES); in massive mode only the success clauses are required (see known findings of C10)",
             PBT + ": filesystem snapshot diff oracle (set algebra) over generated forests, extension lists and directory states"),
     "C07": ("exploration",
-            "Every Mkdir call runs in a chrooted worker; the snapshot covers the whole chroot, so anything touched outside <jail>/work/target is a violation ('..' chains of any length are harmless for the sandbox). Names that cannot be a single path element ('', '.', '..', containing '/', NUL) => error and, without massive, nothing created; benign controls must succeed. Exhaustive: every hostile name at every position of every shape <=4/5 nodes x {md, root} x {dry, real}. Part wide: roots with 200..4100 children and one hostile name; part big-input: documents of 70 kB..9 MB through *bytes.Reader / regular-file readers; seekable readers positioned behind an earlier hostile section; hostile names added after earlier operations on the same tree. Relative target spellings.",
+            "Every Mkdir call runs in a chrooted worker; the snapshot covers the whole chroot, so anything touched outside <jail>/work/target is a violation ('..' chains of any length are harmless for the sandbox). Names that cannot be a single path element ('', '.', '..', containing '/', NUL) => error and, without massive, nothing created; benign controls must succeed. Exhaustive: every hostile name at every position of every shape <=4/5 nodes x {md, root} x {dry, real}. Part wide: roots with 200..4100 children and one hostile name; part big-input: documents of 70 kB..9 MB through *bytes.Reader / regular-file readers; seekable readers positioned behind an earlier hostile section; hostile names added after earlier operations on the same tree. Relative target spellings. Hostile names longer than PATH_MAX (4096 bytes).",
             "the worker process confines itself with chroot(2) (we run as root); must-reject classes are derived from POSIX, not from gtree's validator; invalid UTF-8 and over-long names are don't-care for rejection",
             PBT + ": confinement oracle on a chroot-wide snapshot, exhaustive hostile-name placement + rapid"),
     "C08": ("exploration",
@@ -40,7 +40,7 @@ D = {
             "directory states are built from the tree (removal, kind flips, extras at any depth) or by gtree's own Mkdir; in massive mode only soundness is required (which root is reported depends on the schedule)",
             PBT + ": independent set-difference oracle over generated directory states + Mkdir->Verify round trip"),
     "C09": ("exploration",
-            "Dry run and a real Mkdir of the same forest run in fresh chroot jails: no filesystem diff, report == renderer + per-root counts, counts == entries the real run created beneath each root, dry error iff real error (names only). Routes: OutputFromMarkdown+dry-run (CLI route), MkdirFromRoot+dry-run, simple and massive. Also the non-iterator path, extension lists of 8..12 values incl. compound ones and path tails across a separator, and dry runs against a target file system without room for a single entry. Dry runs with colours enabled (every name verbatim between colour sequences); From-Root names with line breaks.",
+            "Dry run and a real Mkdir of the same forest run in fresh chroot jails: no filesystem diff, report == renderer + per-root counts, counts == entries the real run created beneath each root, dry error iff real error (names only). Routes: OutputFromMarkdown+dry-run (CLI route), MkdirFromRoot+dry-run, simple and massive. Also the non-iterator path, extension lists of 8..12 values incl. compound ones and path tails across a separator, and dry runs against a target file system without room for a single entry. Dry runs with colours enabled (every name verbatim between colour sequences); From-Root names with line breaks. The option list comes in a drawn order (rotation, reversal).",
             "the route MkdirFromMarkdown+WithDryRun is a listed known finding (ignores the option), excluded by construction and probed on every run; over-long names are treated as OS refusal, not as a name rejection",
             PBT + ": purity (snapshot diff) + prediction oracle (dry-run report vs real Mkdir snapshot), exhaustive small forests + rapid"),
     "C10": ("exploration",
@@ -56,7 +56,7 @@ D = {
             "native fuzz campaigns are not reproducible from a seed (their saved inputs are); real Mkdir on arbitrary bytes is driven only from the rapid side (a fuzz worker cannot chroot itself)",
             "fuzzing: grammar-aware mutation (rapid) + coverage-guided native go fuzzing with in-target semantic oracles"),
     "C13": ("exploration",
-            "Stateful, model-based: rapid state machine over NewRoot / Add (any node of any live tree, names that may not be path elements) / any From-Root operation / iterators created now and ranged over later / From-Markdown calls in between (fresh spelling each time, option-less verify) / repeat, with one caller-owned extension slice reused by every call; the model forest is compared after every step; ALL histories up to length 5/7 over an 11-symbol alphabet with two trees; the same histories split over 2..24 goroutines (also massive, also under -race), concurrent independent From-Markdown calls (text and dry-run) and bursts of 2..64 simultaneous massive calls. One WithMassive option value is shared by all calls of a machine, histories contain failing calls, directories are made at the same absolute path in every step, concurrent From-Markdown calls may write to *os.File and use WithMassive, calls with failing readers surround the concurrent ones. Error values of failed From-Markdown calls are kept and re-read later; one option array with spare capacity serves iterator walks (prefix) and JSON calls (whole); a verify whose directory walk fails precedes a verify with a missing path at the same absolute path.",
+            "Stateful, model-based: rapid state machine over NewRoot / Add (any node of any live tree, names that may not be path elements) / any From-Root operation / iterators created now and ranged over later / From-Markdown calls in between (fresh spelling each time, option-less verify) / repeat, with one caller-owned extension slice reused by every call; the model forest is compared after every step; ALL histories up to length 5/7 over an 11-symbol alphabet with two trees; the same histories split over 2..24 goroutines (also massive, also under -race), concurrent independent From-Markdown calls (text and dry-run) and bursts of 2..64 simultaneous massive calls. One WithMassive option value is shared by all calls of a machine, histories contain failing calls, directories are made at the same absolute path in every step, concurrent From-Markdown calls may write to *os.File and use WithMassive, calls with failing readers surround the concurrent ones. Error values of failed From-Markdown calls are kept and re-read later; one option array with spare capacity serves iterator walks (prefix) and JSON calls (whole); a verify whose directory walk fails precedes a verify with a missing path at the same absolute path. Histories contain calls torn down by a recovered panic of the caller's writer or callback.",
             "concurrent schedules are sampled (GOMAXPROCS 1/2/4/16, Gosched between steps)",
             PBT + ": stateful model-based testing (rapid state machine), bounded-exhaustive histories, concurrent histories"),
     "C14": ("fault_enumeration",
